@@ -92,6 +92,7 @@ type c12world struct {
 	slots []*c12slot
 	subs  []string
 	epoch time.Duration
+	grace int // lease mode: configured grace period (epochs)
 	lazy  bool
 }
 
@@ -117,7 +118,7 @@ func (w *c12world) record(sub string) string {
 
 func (w *c12world) cfg() allocator.DistributedConfig {
 	return allocator.DistributedConfig{PoolID: c12PoolID, BaseNetwork: w.pool.base, PrefixLen: w.pool.prefixLen,
-		Mode: w.mode, EpochPeriod: w.epoch, EpochGrace: 1}
+		Mode: w.mode, EpochPeriod: w.epoch, EpochGrace: w.grace}
 }
 
 // get asks a live, idle node for its answer ("" = none).
@@ -237,7 +238,8 @@ func (w *c12world) launch(r *c12opres) {
 	c := w.c
 	sl, kind, sub := r.slot, r.kind, r.sub
 	da := sl.da
-	ctx := context.Background()
+	cctx, cancel := context.WithCancel(context.Background())
+	ctx := context.WithValue(cctx, c12cancelKey{}, cancel)
 	// the operation decides the node's answer for sub from now on
 	sl.touch[sub] = &c12touch{}
 	r.task = c.S.Spawn(fmt.Sprintf("op-n%d", sl.idx), sl.tok, func() {
@@ -277,6 +279,11 @@ func c12RunDist(c *sim.Ctx) {
 	cs := c.Case
 	w := &c12world{c: c, st: newC12Store(c)}
 	w.lease = strings.HasPrefix(cs.Variant, "lease")
+	w.grace = 1
+	if cs.Knob("grace", 1) == 2 {
+		w.grace = 2
+	}
+	w.st.deadline = cs.Knob("deadline", 0) == 1
 	if w.lease {
 		w.mode = allocator.PoolModeLease
 		w.pool = c12leasePools[int(cs.Knob("pool", 0))%len(c12leasePools)]
@@ -497,6 +504,12 @@ func c12Gen(r *sim.Rand, tier string) *sim.Case {
 		cs.Knobs["pool"] = int64(r.Weighted(5, 3, 2, 2, 2, 1))
 	}
 	cs.Knobs["epoch_s"] = int64(sim.Pick(r, 60, 600, 3600))
+	cs.Knobs["grace"] = 1 // lease mode: configured grace period in epochs
+	if !multi && r.P(35) {
+		// (one node only: across nodes, records carry another process's epoch numbers - a known finding)
+		cs.Knobs["grace"] = 2
+	}
+	cs.Knobs["deadline"] = int64(r.Weighted(2, 1)) // 1: an injected store write failure is the caller's deadline firing
 	cs.Knobs["noecho"] = int64(r.Weighted(3, 1))
 	if multi {
 		cs.Knobs["lazy"] = int64(r.Weighted(3, 2))
